@@ -4,6 +4,7 @@ use proptest::prelude::*;
 use serde_json::{Value, json};
 use vcore::{Args, Fail, Report, Tier};
 
+mod guard;
 mod interp;
 mod miri;
 
@@ -11,10 +12,101 @@ use interp::{CallSpec, IntKey, Op, Options, Outcome, RawFn};
 
 fn main() {
     let args = vcore::parse_args();
-    match args.property.as_str() {
-        "C01" | "C02" | "C03" => run(&args),
-        other => vcore::inconclusive(&format!("pico_hist: unknown property {other}")),
+    if !matches!(args.property.as_str(), "C01" | "C02" | "C03") {
+        vcore::inconclusive(&format!("pico_hist: unknown property {}", args.property));
     }
+    if let Ok(path) = std::env::var(guard::ENV_PROBE) {
+        guard::probe_main(&path);
+    }
+    if std::env::var_os(guard::ENV_CHILD).is_some() {
+        run(&args);
+        return;
+    }
+    supervise(&args);
+}
+
+/// Parent side (see `guard.rs`): run the check in a child process; if pico kills that process
+/// while a history is executing, that history is the counterexample.
+fn supervise(args: &Args) -> ! {
+    let dir = vcore::scratch_base().join("inflight");
+    let _ = std::fs::create_dir_all(&dir);
+    let signal = match guard::run_child(&dir) {
+        Ok(code) => {
+            vcore::remove_scratch();
+            std::process::exit(code)
+        }
+        Err(signal) => signal,
+    };
+    let property = args.property.as_str();
+    println!("NOTE: the worker process was killed by signal {signal}; looking for the history that was executing");
+    let mut found = None;
+    for (opts, cap, ops) in guard::in_flight(&dir) {
+        if let Some(death) = guard::probe(cap, &ops, &opts, &dir) {
+            found = Some((opts, cap, ops, death));
+            break;
+        }
+    }
+    let Some((opts, cap, ops, death)) = found else {
+        vcore::inconclusive(&format!(
+            "the worker process was killed by signal {signal}, and no history that was executing at that moment reproduces it in a fresh process (a harness problem, not a verdict about pico)"
+        ));
+    };
+    // strict replay: the input is reported as it is; campaign: shrink by deleting operations
+    let ops = if args.replay.is_some() { ops } else { guard::shrink(cap, ops, &opts, &dir) };
+    let death = guard::probe(cap, &ops, &opts, &dir).unwrap_or(death);
+    let h: History = (cap, ops);
+    let last_is_call = matches!(h.1.last(), Some(Op::Call(_)));
+    let counts = match property {
+        "C03" => true,
+        // "every memoized call returns a value": a call that takes the process down returned nothing
+        "C01" => last_is_call,
+        _ => false,
+    };
+    // the panic messages (a line with "panicked at" and the one after it) and the runtime's last words
+    let lines: Vec<&str> = death.stderr.lines().collect();
+    let mut tail: Vec<&str> = vec![];
+    for (i, l) in lines.iter().enumerate() {
+        if l.contains("panicked at") {
+            tail.push(l);
+            if let Some(n) = lines.get(i + 1) {
+                tail.push(n);
+            }
+        }
+    }
+    let mut last: Vec<&str> = lines.iter().rev().filter(|l| !l.trim().is_empty()).take(2).copied().collect();
+    last.reverse();
+    tail.extend(last);
+    tail.truncate(16);
+    let fail = Fail::new(
+        guard::signature(&death),
+        format!(
+            "pico aborted the whole process (signal {}) while executing `{}` of this history; last lines of stderr:\n{}",
+            death.signal,
+            h.1.last().map(|o| o.encode()).unwrap_or_default(),
+            tail.join("\n")
+        ),
+    );
+    if !counts {
+        println!("history: {}", interp::encode_history(h.0, &h.1));
+        println!("{}", fail.message);
+        vcore::inconclusive(&format!(
+            "pico killed the worker process ({}) during an operation {property} does not speak about; this is a C03 verdict (run ./check C03), the {property} campaign could not continue",
+            fail.signature
+        ));
+    }
+    let report = Report::new(args, "exploration", rule(property));
+    report.engine("stateful");
+    report.engine("process-supervision");
+    report.case(Some("abort-marker-1"), &["worker-process-killed-by-signal"]);
+    report.case(Some("abort-marker-2"), &[]);
+    report.sample("abort", 1, || history_json(&h));
+    match report.tolerate(Err(fail)) {
+        Ok(()) => {}
+        Err(fail) => {
+            report.violation(if args.replay.is_some() { "replay-abort" } else { "abort" }, &fail, history_json(&h));
+        }
+    }
+    report.finish()
 }
 
 // ------------------------------------------------------------------------------------------------
@@ -38,6 +130,7 @@ fn int_key() -> impl Strategy<Value = IntKey> {
         3 => Just(IntKey::CfgRaw),
         2 => key().prop_map(IntKey::ValRaw),
         2 => Just(IntKey::SumRaw),
+        1 => key().prop_map(IntKey::PairRaw),
         1 => (-1..=2i32).prop_map(IntKey::Interned),
     ]
 }
@@ -70,12 +163,16 @@ fn call_spec() -> impl Strategy<Value = CallSpec> {
         1 => (-1..=2i32).prop_map(UseInterned),
         1 => Just(UseChain),
         2 => Just(KeysTotal),
+        3 => key().prop_map(PairRaw),
+        1 => (key(), keys()).prop_map(|(x, ys)| PairChild(x, ys)),
+        1 => (key(), keys()).prop_map(|(x, ys)| PairChildRef(x, ys)),
+        1 => (key(), 0..2u8, keys()).prop_map(|(x, y, ys)| TripleChild(x, y, ys)),
         1 => (name(), any::<bool>()).prop_map(|(n, b)| RowParamVia(n, b)),
     ]
 }
 
 fn raw_fn() -> impl Strategy<Value = RawFn> {
-    prop_oneof![1 => Just(RawFn::CfgRaw), 1 => key().prop_map(RawFn::ValRaw), 2 => Just(RawFn::SumRaw)]
+    prop_oneof![2 => Just(RawFn::CfgRaw), 1 => key().prop_map(RawFn::ValRaw), 2 => Just(RawFn::SumRaw), 2 => key().prop_map(RawFn::PairRaw)]
 }
 
 /// weights: (writes, calls, gc-related)
@@ -150,11 +247,94 @@ pub fn row_scenario(max_extra: usize) -> impl Strategy<Value = History> {
     )
 }
 
+fn interleave(mut ops: Vec<Op>, extra: Vec<(Op, u16)>, keep_prefix: usize) -> Vec<Op> {
+    for (op, at) in extra {
+        let pos = keep_prefix + vcore::pick_index(at, ops.len() + 1 - keep_prefix);
+        ops.insert(pos, op);
+    }
+    ops
+}
+
+/// A parent that stays a GC root (LRU or retain) while its children, which share its first
+/// parameter and carry further owned / borrowed parameters, survive a collection only through
+/// reachability; then a source the children read changes and the PARENT is called again, so the
+/// children are reached by dependency verification with the parameters the collector kept.
+pub fn param_scenario(max_extra: usize) -> impl Strategy<Value = History> {
+    (
+        (1..=3usize, key(), prop::collection::vec((key(), val()), 1..=3), any::<bool>(), 1..=2usize),
+        (key(), val(), any::<bool>(), prop::collection::vec((mixed_op(true, 1), any::<u16>()), 0..=max_extra)),
+    )
+        .prop_map(|((cap, x, sets, retain, gcs), (wk, wv, direct_child_after, extra))| {
+            let mut ops = vec![];
+            for (k, v) in &sets {
+                ops.push(Op::Set(*k, *v));
+                ops.push(Op::TrackedInsert(*k));
+            }
+            let prefix = ops.len();
+            ops.push(if retain { Op::Retain(RawFn::PairRaw(x)) } else { Op::Call(CallSpec::PairRaw(x)) });
+            for _ in 0..gcs {
+                ops.push(Op::Gc);
+            }
+            ops.push(Op::Set(wk, wv));
+            ops.push(Op::TrackedInsert(wk));
+            ops.push(Op::Call(CallSpec::PairRaw(x)));
+            if direct_child_after {
+                ops.push(Op::Call(CallSpec::PairChild(x, vec![x % interp::KEYS, 1])));
+            }
+            (cap, interleave(ops, extra, prefix))
+        })
+}
+
+/// The same query retained several times: one guard made permanent, another cleared, the query
+/// evicted from the LRU by other top-level calls, a collection, then reads of the query.
+pub fn retain_scenario(max_extra: usize) -> impl Strategy<Value = History> {
+    (
+        (1..=2usize, raw_fn(), 2..=3usize, any::<u16>(), any::<u16>(), any::<bool>()),
+        (prop::collection::vec(call_spec(), 1..=4), 0..=2usize, prop::collection::vec((mixed_op(true, 1), any::<u16>()), 0..=max_extra)),
+    )
+        .prop_map(|((cap, f, n, never_at, clear_at, never_first), (others, more_clears, extra))| {
+            let mut ops = vec![Op::Set(0, 1), Op::Set(1, 0), Op::Set(2, -1), Op::TrackedInsert(0), Op::SetCfg(1)];
+            let prefix = ops.len();
+            for _ in 0..n {
+                ops.push(Op::Retain(f.clone()));
+            }
+            if never_first {
+                ops.push(Op::NeverGc(never_at));
+                ops.push(Op::ClearRetain(clear_at));
+            } else {
+                ops.push(Op::ClearRetain(clear_at));
+                ops.push(Op::NeverGc(never_at));
+            }
+            for o in others {
+                ops.push(Op::Call(o));
+            }
+            ops.push(Op::Gc);
+            ops.push(Op::Lookup(0));
+            let again = match &f {
+                RawFn::CfgRaw => CallSpec::CfgRaw,
+                RawFn::SumRaw => CallSpec::SumRaw,
+                RawFn::ValRaw(k) => CallSpec::ValRaw(*k),
+                RawFn::PairRaw(x) => CallSpec::PairRaw(*x),
+            };
+            ops.push(Op::Call(again));
+            for i in 0..more_clears {
+                ops.push(Op::ClearRetain(i as u16));
+            }
+            ops.push(Op::Gc);
+            (cap, interleave(ops, extra, prefix))
+        })
+}
+
 type History = (usize, Vec<Op>);
 
 fn history(gc_heavy: bool, max_len: usize) -> impl Strategy<Value = History> {
     let plain = (1..=3usize, prop::collection::vec(mixed_op(gc_heavy, if gc_heavy { 3 } else { 1 }), 1..=max_len));
-    prop_oneof![if gc_heavy { 9 } else { 30 } => plain, 1 => row_scenario(12)]
+    prop_oneof![
+        if gc_heavy { 12 } else { 30 } => plain,
+        1 => row_scenario(12),
+        if gc_heavy { 2 } else { 1 } => param_scenario(8),
+        if gc_heavy { 2 } else { 1 } => retain_scenario(8),
+    ]
 }
 
 pub fn history_json(h: &History) -> Value {
@@ -245,8 +425,8 @@ fn open_finding(property: &str, signature: &str) -> bool {
 fn rule(property: &str) -> &'static str {
     match property {
         "C01" => {
-            "histories (LRU capacity 1..=3, <=40 ops over 3 keyed sources + 1 singleton + 1 tracked map, 26 memoized \
-             function shapes) interpreted against pico and a never-memoizing model; non-trivial = the history \
+            "histories (LRU capacity 1..=3, <=40 ops over 3 keyed sources + 1 singleton + 1 tracked map, 30 memoized \
+             function shapes incl. parents whose children share their first parameter) interpreted against pico and a never-memoizing model; non-trivial = the history \
              calls a memoized function again after a write changed one of its transitive inputs; distinct by history text"
         }
         "C02" => {
@@ -274,21 +454,12 @@ fn run(args: &Args) {
     }
     let opts = options(&report, property);
 
-    let run_one = |h: &History| -> Outcome {
-        match vcore::catch_panic(|| interp::run_history(h.0, &h.1, &opts)) {
-            Ok(o) => o,
-            Err(p) => vcore::inconclusive(&format!("pico_hist interpreter panicked outside a guarded region: {p}")),
-        }
-    };
+    let run_one = |h: &History| -> Outcome { guard::guarded_run(h.0, &h.1, &opts) };
 
     if let Some(path) = &args.replay {
         let doc = vcore::read_replay(path);
         let Some(h) = history_from_json(&doc["input"]) else { vcore::inconclusive("replay input is not a history") };
-        let strict = Options::default();
-        let out = match vcore::catch_panic(|| interp::run_history(h.0, &h.1, &strict)) {
-            Ok(o) => o,
-            Err(p) => vcore::inconclusive(&format!("interpreter panicked: {p}")),
-        };
+        let out = guard::guarded_run(h.0, &h.1, &Options::default());
         let r = judge(property, &report, &h, &out);
         report.case(Some("replay-marker-1"), &[]);
         report.case(Some("replay-marker-2"), &[]);
@@ -307,10 +478,7 @@ fn run(args: &Args) {
     report.run_regressions(|input| {
         let Some(h) = history_from_json(input) else { return Err(Fail::new("harness-internal:bad-regression-input", "not a history")) };
         // checked-in inputs run without any exclusion switch
-        let out = match vcore::catch_panic(|| interp::run_history(h.0, &h.1, &Options::default())) {
-            Ok(o) => o,
-            Err(p) => vcore::inconclusive(&format!("interpreter panicked: {p}")),
-        };
+        let out = guard::guarded_run(h.0, &h.1, &Options::default());
         judge(property, &report, &h, &out)
     });
 
